@@ -48,7 +48,7 @@ def run(chk):
                 ("bal-penalty", "penalty", K, 11, 1, 0, 1500, 4, 1), ("bal-penalty-pairs", "penalty", KS, 10, 2, 0, 700, 4, 1),
                 ("bal-cancel-pairs", "cancel", K, 12, 2, 0, 3000, 4, 4), ("bal-cancel", "cancel", K, 13, 1, 0, 2000, 4, 1)]
     else:
-        jobs = [("bal-votes", "votes", KS, 9, 2, 0, 240, 3, 1), ("bal-cancel", "cancel", K, 12, 1, 0, 240, 3, 1),
+        jobs = [("bal-votes", "votes", KS, 10, 1, 0, 240, 3, 2), ("bal-cancel", "cancel", K, 12, 1, 0, 240, 3, 1),
                 ("bal-basic", "basic", KS, 8, 2, 0, 200, 3, 20)]
     allbehs = dc.explore_all(chk, jobs)
 
@@ -60,17 +60,20 @@ def run(chk):
     bad = json.loads(json.dumps(cand[len(cand) // 2]))
     bad[-1]["st"]["ad"]["a1"]["rights"] += 1
     recs = dc.replay(chk, [bad], jobs[0][1], "selftest")
-    chk.selftest("replay: expected vote rights corrupted", any(x.get("kind") == "mismatch" for x in recs))
-    rej = [b for bs in allbehs for b in bs if b[-1].get("act") == "Block" and not b[-1].get("pre")]
-    if rej:
-        bad = json.loads(json.dumps(rej[0]))
-        bad[-1]["pre"] = True
-        bad[-1]["why"] = ""
-        which = [j[1] for j, bs in zip(jobs, allbehs) if rej[0] in bs][0]
-        recs = dc.replay(chk, [bad], which, "selftest2")
-        chk.selftest("replay: a request above the balance relabelled as acceptable", any(x.get("kind") == "mismatch" for x in recs))
-    else:
-        raise vf.Infra("no rejected request among the behaviours (self-test needs one)")
+    chk.selftest("replay: expected vote rights corrupted", any(x.get("kind") in ("mismatch", "violation") for x in recs))
+    # (b) an accepted withdrawal / vote relabelled as "must be rejected": the real checker accepts it, nothing goes
+    # wrong, so the driver must object to the label
+    acc = [(j[1], b) for j, bs in zip(jobs, allbehs) for b in bs
+           if b[-1].get("act") == "Block" and b[-1].get("applied") and len(b[-1]["items"]) == 1
+           and b[-1]["items"][0]["k"] in ("RetDep", "Vote2", "RetVotes")]
+    if not acc:
+        raise vf.Infra("no accepted withdrawal / vote among the behaviours (self-test needs one)")
+    which, b = acc[len(acc) // 2]
+    bad = json.loads(json.dumps(b))
+    bad[-1].update(pre=False, applied=False, dev=False, why="rejected")
+    recs = dc.replay(chk, [bad], which, "selftest2")
+    chk.selftest("replay: an accepted request relabelled as one the checker must reject",
+                 any(x.get("kind") in ("mismatch", "violation") for x in recs))
 
     if thorough:
         behs, recs = dc.simulate(chk, "bal-sim", "basic", K + ["Sponsor"], 30, 800, vf.seed())
